@@ -205,17 +205,24 @@ def client18 (cc : Dict) : Option Dict :=
 def server18pre (sc : Dict) : Dict :=
   rename (rename (rename sc (s "ip_address") (s "peername")) (s "source_address") (s "sockname")) (s "via2") (s "via")
 
-/-- `if sc["sni"] is True: sc["sni"] = sc["address"][0]` -/
+/-- `address[0]` for a truthy address: a list's first item, a str's first character (UTF-8 lead byte + continuations), a
+    bytes' first byte as an int; anything else raises -/
+def firstOf : Value → Option Value
+  | .list (h :: _) => some h
+  | .str (b :: rest) => some (.str (b :: rest.takeWhile (fun c => 0x80 ≤ c.toNat ∧ c.toNat < 0xC0)))
+  | .bytes (b :: _) => some (.int b.toNat)
+  | _ => none
+
+/-- `if sc["sni"] is True: address = sc["address"]; sc["sni"] = address[0] if address else None` -/
 def sniFix (sc : Dict) : Option Dict := do
   let sni ← dget sc (s "sni")
   match sni with
   | .bool true =>
     match dget sc (s "address") with
-    | some (.list (h :: _)) => some (dset sc (s "sni") h)
-    | some (.str (b :: rest)) =>                                  -- str[0]: the first code point (UTF-8 lead byte + continuations)
-      some (dset sc (s "sni") (.str (b :: rest.takeWhile (fun c => 0x80 ≤ c.toNat ∧ c.toNat < 0xC0))))
-    | some (.bytes (b :: _)) => some (dset sc (s "sni") (.int b.toNat))
-    | _ => none
+    | none => none                                                       -- KeyError
+    | some a =>
+      if truthy a then (firstOf a).map (fun h => dset sc (s "sni") h)
+      else some (dset sc (s "sni") .null)                                -- no destination on record: no server name
   | _ => some sc
 
 /-- what 18→19 does to `server_conn` -/
